@@ -43,6 +43,7 @@ func plan(c *core.Ctx) []batch {
 			bs = append(bs, batch{Type: typ, Index: i, Cases: cases, Size: size})
 		}
 	}
+	add("directed", c.Pick(2, 8), 1, 0) // hand-made sets around the empty key and 0xFF, random partitions
 	if c.Quick() {
 		add("huge", 0, 0, 0)
 		add("large", 6, 1, 6000)
@@ -255,6 +256,19 @@ func childMain() {
 	case "store":
 		for i := 0; i < cases; i++ {
 			runStoreCase(r, rnd, fmt.Sprintf("store-%d-%d", idx, i), dir, genKeySet(rnd, "", 200), 50)
+		}
+	case "directed":
+		b := trie.NewBuilder()
+		for i, ks := range directedSets() {
+			for j := 0; j < 3; j++ {
+				runMemCase(r, rnd, &b, fmt.Sprintf("directed-%d/mem-%d-%d", idx, i, j), ks, 200)
+			}
+			for j := 0; j < 4; j++ {
+				runKVCase(r, rnd, fmt.Sprintf("directed-%d-kv-%d-%d", idx, i, j), dir, []keySet{ks}, 1+rnd.Intn(4), 60)
+			}
+			for j := 0; j < 6; j++ {
+				runStoreCase(r, rnd, fmt.Sprintf("directed-%d-store-%d-%d", idx, i, j), dir, ks, 50)
+			}
 		}
 	case "huge":
 		for i := 0; i < cases; i++ {
